@@ -81,6 +81,21 @@ pub fn run(ctx: &Ctx, ev: &mut Ev) {
             if nontrivial(case, &out) { ev.nontrivial_enum(); }
         });
     }
+    // surrogate neighbourhood (UTF-16 source): both neighbours of the surrogate range next to unpaired surrogates, all cuts
+    if ctx.want("surr") && !small {
+        let sp3 = EncSpace { encs: encoder_families(), alpha: vec![0x61, 0xE9, 0xD7FF, 0xD800, 0xDBFF, 0xDC00, 0xDFFF, 0xE000, 0x1F4A9], maxlen: 3, src16s: vec![true], vec_sinks: vec![false], repls: vec![false, true],
+            cap_offsets: vec![vec![0], vec![1], vec![3]], last_seps: vec![false], stride: 1, fills: vec![0x5A], per_encoder: false };
+        ev.note(format!("surr: {}", sp3.describe()));
+        let mut rf: Option<Ref> = None;
+        enum_enc(ctx, ev, &sp3, |case, new_group, ev| {
+            if new_group { rf = Some(reference(&mut drv, ev, case)); }
+            let tr = ev.case();
+            let out = drv.run_enc(case, ev);
+            if tr { println!("TRACE {} | calls: {} | items [{}] | single call [{}]", case.describe(), fmt_calls(&out.calls), fmt_eitems(&out.items), fmt_eitems(&rf.as_ref().unwrap().out.items)); }
+            compare(ev, case, &out, rf.as_ref().unwrap());
+            if nontrivial(case, &out) { ev.nontrivial_enum(); }
+        });
+    }
     if ctx.want("random") {
         let mut r = ctx.rng(4);
         let n = ctx.budget(300_000, 10_000_000);
